@@ -181,17 +181,6 @@ Proof.
   destruct s; [contradiction | reflexivity].
 Qed.
 
-Lemma tof_std_roundtrip s : s <> [] -> Forall dig s ->
-  exists bits, tof_encode s false = Ok (mk1d K2of5 s None bits)
-    /\ tof_decode false bits = Some (map digit_val s).
-Proof.
-  intros Hne Hd. unfold tof_encode.
-  rewrite bytes_eqb_neq by exact Hne. cbn [andb]. rewrite tof_mode_std.
-  rewrite utf8_decode_ascii by (apply dig_ascii; exact Hd).
-  rewrite tof_loop_std by exact Hd. cbn [obind].
-  eexists. split; [reflexivity|]. apply std_symbol_decodes; assumption.
-Qed.
-
 Lemma tof_loop_std_inv rs : forall lst b l,
   tof_loop false tof_spec_widths rs lst = Ok (b, l) -> Forall dig rs.
 Proof.
@@ -211,16 +200,6 @@ Qed.
 Lemma dig_forallb s : forallb is_digit s = true <-> Forall dig s.
 Proof. rewrite forallb_forall, Forall_forall. reflexivity. Qed.
 
-Lemma tof_std_ok_inv s bc : tof_encode s false = Ok bc -> s <> [] /\ Forall dig s.
-Proof.
-  unfold tof_encode. destruct (bytes_eqb s []) eqn:E; [discriminate|]. cbn [andb].
-  rewrite tof_mode_std.
-  destruct (tof_loop false tof_spec_widths (utf8_decode s) None) as [[b l]| | |] eqn:E2; try discriminate.
-  intros _. split.
-  - intros ->. discriminate.
-  - apply runes_digits_bytes. eapply tof_loop_std_inv. exact E2.
-Qed.
-
 (* the model has no panicking operation at all *)
 Lemma tof_loop_no_panic i w rs : forall lst,
   tof_loop i w rs lst = Err \/ exists r, tof_loop i w rs lst = Ok r.
@@ -233,15 +212,6 @@ Proof.
     destruct (IH None) as [-> | ([b x] & ->)]; [left; reflexivity | right; eexists; reflexivity].
   - destruct (tof_lookup r); [|left; reflexivity].
     destruct (IH lst) as [-> | ([b x] & ->)]; [left; reflexivity | right; eexists; reflexivity].
-Qed.
-
-Lemma tof_encode_no_panic s i : tof_encode s i = Err \/ exists bc, tof_encode s i = Ok bc.
-Proof.
-  unfold tof_encode. destruct (bytes_eqb s []); [left; reflexivity|].
-  destruct (i && _); [left; reflexivity|].
-  destruct (tof_mode i) as [[st sp] w].
-  destruct (tof_loop_no_panic i w (utf8_decode s) None) as [-> | ([b x] & ->)];
-    [left; reflexivity | right; eexists; reflexivity].
 Qed.
 
 (* ---------- interleaved mode ---------- *)
@@ -357,18 +327,6 @@ Proof.
   destruct s; [contradiction | reflexivity].
 Qed.
 
-Lemma tof_int_roundtrip s : s <> [] -> Forall dig s -> Nat.even (length s) = true ->
-  exists bits, tof_encode s true = Ok (mk1d K2of5I s None bits)
-    /\ tof_decode true bits = Some (map digit_val s).
-Proof.
-  intros Hne Hd He. unfold tof_encode.
-  rewrite bytes_eqb_neq by exact Hne. unfold zlength. rewrite odd_rem, <- Nat.negb_even, He.
-  cbn [negb andb]. rewrite tof_mode_int.
-  rewrite utf8_decode_ascii by (apply dig_ascii; exact Hd).
-  rewrite tof_loop_int by assumption. cbn [obind].
-  eexists. split; [reflexivity|]. apply int_symbol_decodes; assumption.
-Qed.
-
 (* what a completed interleaved loop has checked: if no rune is left pending
    (or the number of runes is even) every rune is a digit *)
 Lemma tof_loop_int_inv rs : forall b l,
@@ -390,26 +348,11 @@ Proof.
     constructor; [eapply tof_lookup_some; exact Ey | exact A].
 Qed.
 
-(* partial soundness of the code as it is: on pure ASCII input an accepted
-   interleaved content is a non-empty even-length digit string *)
-Lemma tof_int_ok_inv_ascii s bc : Forall ascii_byte s -> tof_encode s true = Ok bc ->
-  s <> [] /\ Forall dig s /\ Nat.even (length s) = true.
-Proof.
-  unfold tof_encode. intros Ha. destruct (bytes_eqb s []) eqn:E; [discriminate|].
-  unfold zlength. rewrite odd_rem. cbn [andb].
-  destruct (Nat.odd (length s)) eqn:Eo; [discriminate|].
-  rewrite tof_mode_int, utf8_decode_ascii by exact Ha.
-  destruct (tof_loop true tof_spec_widths s None) as [[b l]| | |] eqn:E2; try discriminate.
-  intros _. assert (Nat.even (length s) = true) as He by (rewrite <- Nat.negb_odd, Eo; reflexivity).
-  destruct (tof_loop_int_inv _ _ _ E2 (or_intror He)) as (A & _ & _).
-  split; [intros ->; discriminate | auto].
-Qed.
-
-(* the proposed repair: full soundness for every byte string *)
-Lemma tof_patched_ok_inv s i bc : tof_encode_patched s i = Ok bc ->
+(* an accepted content is a non-empty digit string (of even length when interleaved): every byte string *)
+Lemma tof_ok_inv s i bc : tof_encode s i = Ok bc ->
   s <> [] /\ Forall dig s /\ (i = true -> Nat.even (length s) = true).
 Proof.
-  unfold tof_encode_patched. destruct (bytes_eqb s []) eqn:E; [discriminate|].
+  unfold tof_encode. destruct (bytes_eqb s []) eqn:E; [discriminate|].
   assert (s <> []) as Hne by (intros ->; discriminate).
   destruct i.
   - unfold zlength. rewrite odd_rem. cbn [andb].
@@ -426,12 +369,12 @@ Proof.
     apply runes_digits_bytes. eapply tof_loop_std_inv. exact E2.
 Qed.
 
-Lemma tof_patched_roundtrip s i :
+Lemma tof_roundtrip s i :
   s <> [] -> Forall dig s -> (i = true -> Nat.even (length s) = true) ->
-  exists bits, tof_encode_patched s i = Ok (mk1d (if i then K2of5I else K2of5) s None bits)
+  exists bits, tof_encode s i = Ok (mk1d (if i then K2of5I else K2of5) s None bits)
     /\ tof_decode i bits = Some (map digit_val s).
 Proof.
-  intros Hne Hd He. unfold tof_encode_patched. rewrite bytes_eqb_neq by exact Hne.
+  intros Hne Hd He. unfold tof_encode. rewrite bytes_eqb_neq by exact Hne.
   rewrite utf8_decode_ascii by (apply dig_ascii; exact Hd).
   destruct i.
   - specialize (He eq_refl). unfold zlength. rewrite odd_rem, <- Nat.negb_even, He.
@@ -454,106 +397,57 @@ Proof.
     + destruct i; [apply H3; reflexivity | reflexivity].
 Qed.
 
-(* ---------- main lemmas ---------- *)
-Lemma tof_accept i s : tof_representable i s = true ->
-  exists bits, tof_encode s i = Ok (mk1d (if i then K2of5I else K2of5) s None bits)
-    /\ tof_decode i bits = Some (map digit_val s).
-Proof.
-  intros H. apply tof_representable_iff in H as (A & B & C). destruct i.
-  - apply tof_int_roundtrip; auto.
-  - apply tof_std_roundtrip; auto.
-Qed.
-
-Lemma tof_std_sound s bc : tof_encode s false = Ok bc ->
-  tof_representable false s = true
-  /\ bc_kind bc = K2of5 /\ bc_content bc = s /\ bc_checksum bc = None /\ bc_height bc = 1
-  /\ exists bits, bc_rows bc = [bits] /\ bc_width bc = zlength bits
-       /\ tof_decode false bits = Some (map digit_val s).
-Proof.
-  intros H. destruct (tof_std_ok_inv s bc H) as [A B].
-  assert (tof_representable false s = true) as R by (apply tof_representable_iff; split; [|split]; auto; discriminate).
-  destruct (tof_accept false s R) as (bits & E & D). rewrite E in H. inversion H; subst bc.
-  cbn [mk1d bc_kind bc_content bc_checksum bc_height bc_rows bc_width].
-  repeat split; auto. exists bits. auto.
-Qed.
-
-Lemma tof_std_reject s : tof_representable false s = false -> tof_encode s false = Err.
-Proof.
-  intros R. destruct (tof_encode_no_panic s false) as [E | (bc & E)]; [exact E|].
-  apply tof_std_sound in E. destruct E as [E _]. congruence.
-Qed.
-
-Lemma tof_int_sound_ascii s bc : Forall ascii_byte s -> tof_encode s true = Ok bc ->
-  tof_representable true s = true
-  /\ bc_kind bc = K2of5I /\ bc_content bc = s /\ bc_checksum bc = None /\ bc_height bc = 1
-  /\ exists bits, bc_rows bc = [bits] /\ bc_width bc = zlength bits
-       /\ tof_decode true bits = Some (map digit_val s).
-Proof.
-  intros Ha H. destruct (tof_int_ok_inv_ascii s bc Ha H) as (A & B & C).
-  assert (tof_representable true s = true) as R by (apply tof_representable_iff; auto).
-  destruct (tof_accept true s R) as (bits & E & D). rewrite E in H. inversion H; subst bc.
-  cbn [mk1d bc_kind bc_content bc_checksum bc_height bc_rows bc_width].
-  repeat split; auto. exists bits. auto.
-Qed.
-
-Lemma tof_int_reject_ascii s : Forall ascii_byte s ->
-  tof_representable true s = false -> tof_encode s true = Err.
-Proof.
-  intros Ha R. destruct (tof_encode_no_panic s true) as [E | (bc & E)]; [exact E|].
-  apply (tof_int_sound_ascii s bc Ha) in E. destruct E as [E _]. congruence.
-Qed.
-
-(* the full-strength statement is FALSE of the code as it is: "é" (C3 A9) is
-   accepted in interleaved mode; the symbol is start + stop only *)
-Lemma tof_int_sound_refuted :
-  exists s bits,
-    tof_encode s true = Ok (mk1d K2of5I s None bits)
-    /\ tof_representable true s = false
-    /\ tof_decode true bits <> Some (map digit_val s)
-    /\ bits = tof_int_start ++ tof_int_stop.
-Proof.
-  exists [195; 169], (tof_int_start ++ tof_int_stop). split; [vm_compute; reflexivity|].
-  split; [reflexivity|]. split; [vm_compute; discriminate | reflexivity].
-Qed.
-
-(* "12é" is drawn exactly like "12" *)
-Lemma tof_int_refuted_same_symbol :
-  exists bits, tof_encode [49; 50; 195; 169] true = Ok (mk1d K2of5I [49; 50; 195; 169] None bits)
-    /\ tof_encode [49; 50] true = Ok (mk1d K2of5I [49; 50] None bits).
-Proof. exists (tof_int_start ++ int_modules [49; 50] ++ tof_int_stop). split; vm_compute; reflexivity. Qed.
-
-Lemma tof_patched_sound s i bc : tof_encode_patched s i = Ok bc ->
+Lemma tof_sound s i bc : tof_encode s i = Ok bc ->
   tof_representable i s = true
   /\ bc_kind bc = (if i then K2of5I else K2of5) /\ bc_content bc = s /\ bc_checksum bc = None
   /\ bc_height bc = 1
   /\ exists bits, bc_rows bc = [bits] /\ bc_width bc = zlength bits
        /\ tof_decode i bits = Some (map digit_val s).
 Proof.
-  intros H. destruct (tof_patched_ok_inv s i bc H) as (A & B & C).
-  destruct (tof_patched_roundtrip s i A B C) as (bits & E & D). rewrite E in H. inversion H; subst bc.
+  intros H. destruct (tof_ok_inv s i bc H) as (A & B & C).
+  destruct (tof_roundtrip s i A B C) as (bits & E & D). rewrite E in H. inversion H; subst bc.
   cbn [mk1d bc_kind bc_content bc_checksum bc_height bc_rows bc_width].
   split; [apply tof_representable_iff; auto|]. repeat split; auto. exists bits. auto.
 Qed.
 
-Lemma tof_patched_complete s i : tof_representable i s = true ->
-  exists bc, tof_encode_patched s i = Ok bc.
+Lemma tof_complete s i : tof_representable i s = true ->
+  exists bc, tof_encode s i = Ok bc.
 Proof.
   intros H. apply tof_representable_iff in H as (A & B & C).
-  destruct (tof_patched_roundtrip s i A B C) as (bits & E & _). eexists; exact E.
+  destruct (tof_roundtrip s i A B C) as (bits & E & _). eexists; exact E.
 Qed.
 
-Lemma tof_patched_reject s i : tof_representable i s = false -> tof_encode_patched s i = Err.
+Lemma tof_reject s i : tof_representable i s = false -> tof_encode s i = Err.
 Proof.
-  intros R. unfold tof_encode_patched.
+  intros R. unfold tof_encode.
   destruct (bytes_eqb s []) eqn:E0; [reflexivity|].
   destruct (i && _) eqn:E1; [reflexivity|].
   destruct (tof_mode i) as [[st sp] w] eqn:Em.
   destruct (tof_loop_no_panic i w (utf8_decode s) None) as [E | ([b l] & E)]; rewrite E; [reflexivity|].
   cbn [obind]. destruct l; [reflexivity|]. exfalso.
-  assert (exists bc, tof_encode_patched s i = Ok bc) as (bc & Hbc).
-  { unfold tof_encode_patched. rewrite E0, E1, Em, E. cbn [obind]. eexists; reflexivity. }
-  apply tof_patched_sound in Hbc. destruct Hbc as [Hbc _]. congruence.
+  assert (exists bc, tof_encode s i = Ok bc) as (bc & Hbc).
+  { unfold tof_encode. rewrite E0, E1, Em, E. cbn [obind]. eexists; reflexivity. }
+  apply tof_sound in Hbc. destruct Hbc as [Hbc _]. congruence.
 Qed.
+
+Lemma tof_accept i s : tof_representable i s = true ->
+  exists bits, tof_encode s i = Ok (mk1d (if i then K2of5I else K2of5) s None bits)
+    /\ tof_decode i bits = Some (map digit_val s).
+Proof.
+  intros H. apply tof_representable_iff in H as (A & B & C). apply tof_roundtrip; assumption.
+Qed.
+
+Lemma tof_encode_no_panic s i : tof_encode s i = Err \/ exists bc, tof_encode s i = Ok bc.
+Proof.
+  destruct (tof_representable i s) eqn:R.
+  - right. apply tof_complete. exact R.
+  - left. apply tof_reject. exact R.
+Qed.
+
+(* the inputs that the code before fix 63bda0c accepted are errors now *)
+Lemma tof_former_witness_rejected :
+  tof_encode [195; 169] true = Err /\ tof_encode [49; 50; 195; 169] true = Err.
+Proof. split; vm_compute; reflexivity. Qed.
 
 (* ---------- AddCheckSum ---------- *)
 Lemma rune_to_int_dig c : dig c -> rune_to_int c = digit_val c.
